@@ -186,6 +186,18 @@ def eval_measures(rec):
         it = [[ev(t, env) for t in row] for row in rec["inertia"]]
         mag = math.sqrt(sum(float(x) ** 2 for r in it for x in r))
         chk("inertia_tensor", "inertia", rec["inertia"], lambda: P.inertia_tensor, mag)
+        if not any(float(x) for x in c):
+            # centred at the origin: the principal moments V/5 (b^2 + c^2) ... are separate quantities, each accurate to its own
+            # size (for a needle the moment about the long axis is 1e-12 of the others and must not be lost to cancellation)
+            try:
+                dg = np.diag(np.asarray(P.inertia_tensor, dtype=float))
+                for k in range(3):
+                    w = float(it[k][k])
+                    if not abs(dg[k] - w) <= 1e-9 * abs(w):
+                        bad("inertia_tensor_principal", f"principal moment {k} = {dg[k]!r}, exact {w!r} (relative error {abs(dg[k] - w) / abs(w):.2e})", w, float(dg[k]))
+                        break
+            except Exception as exn:
+                bad("inertia_tensor_principal", f"raised {type(exn).__name__}: {exn}")
         b = ev(rec["boundary"], env)
         try:
             iq = float(P.iq)
